@@ -82,7 +82,9 @@ structure Base where
   log : List Event := []
   deriving Repr
 
-def Base.event (b : Base) (e : Event) : Base := { b with log := b.log ++ [e] }
+/-- events are kept newest-first (constant-time append); readers reverse -/
+def Base.event (b : Base) (e : Event) : Base := { b with log := e :: b.log }
+def Base.events (b : Base) : List Event := b.log.reverse
 
 /-! ### wire helpers -/
 
